@@ -493,6 +493,20 @@ var (
 	pairCache   = map[string]*verdict{}
 )
 
+var pairClashCache = map[string][2]string{}
+
+func pairClash(outer string, i int, inner string, pv *verdict) (sig, note string) {
+	key := fmt.Sprintf("%s|%d|%s", outer, i, inner)
+	if r, has := pairClashCache[key]; has {
+		return r[0], r[1]
+	}
+	t := defaultsOf(outer)
+	t.kids[i] = defaultsOf(inner)
+	sig, note = nameClash(t, pv, fmt.Sprintf("c01clash%sh%d%s", outer, i, inner))
+	pairClashCache[key] = [2]string{sig, note}
+	return
+}
+
 func defaultsOf(kind string) *term {
 	t := &term{kind: kind}
 	for i := 0; i < arity(kind); i++ {
@@ -563,6 +577,11 @@ func attribute(t *term, prefix string, whole *verdict) (out []engine.Failure) {
 					d := pv.describe()
 					if n != t || 2 < t.deviations() {
 						d += from
+					}
+					if sig, note := pairClash(n.kind, i, k.kind, pv); sig != "" {
+						add(sig, d+note)
+						cut[k] = true
+						continue
 					}
 					inner := k.kind
 					// does it fail the same way with just any filling? then the inner form is not part of what fails
@@ -638,6 +657,10 @@ func nameClash(core *term, cv *verdict, prefix string) (sig, note string) {
 		}
 	}
 	walk(core)
+	// innermost first: the smallest form whose renaming is enough names the defect
+	for a, b := 0, len(insts)-1; a < b; a, b = a+1, b-1 {
+		insts[a], insts[b] = insts[b], insts[a]
+	}
 	for i, inst := range insts {
 		rv := judgeRenaming(core, fmt.Sprintf("%sa%d", prefix, i), inst)
 		if rv.skip != "" || rv.want != cv.want || !sameTrace(rv.wantTr, cv.wantTr) {
